@@ -41,6 +41,8 @@ UNWRAPS = {
     "core::result::Result::expect": "expect",
 }
 
+_UNWRAP_OR_ELSE = {"std::option::Option::unwrap_or_else", "core::option::Option::unwrap_or_else", "std::result::Result::unwrap_or_else", "core::result::Result::unwrap_or_else"}
+
 PANICKING_STD = {
     "std::vec::Vec::remove", "std::vec::Vec::insert", "std::vec::Vec::swap_remove", "std::vec::Vec::split_off",
     "std::vec::Vec::drain", "std::vec::Vec::splice", "std::vec::Vec::extend_from_within",
@@ -70,9 +72,12 @@ def _ty_class(t):
     return t
 
 
+_TRANSPARENT_CALLS = {"clone", "cloned", "copied", "to_owned", "as_ref", "as_mut", "as_deref", "as_deref_mut", "borrow", "borrow_mut", "by_ref"}
+
+
 def _origin(e, depth=0):
     """Operand origin of an expression, robust to local renames."""
-    if e is None or depth > 4:
+    if e is None or depth > 6:
         return "?"
     k = e.get("k")
     if k == "path":
@@ -80,6 +85,8 @@ def _origin(e, depth=0):
             return "local<%s>" % _ty_class(e.get("ty"))
         return "def:" + fb.last2(fb.norm(e.get("def", "?")))
     if k == "mcall":
+        if e.get("name") in _TRANSPARENT_CALLS and not e.get("args"):
+            return _origin(e.get("recv"), depth + 1)      # `x.f.clone().unwrap()` and `x.clone().f.unwrap()` unwrap the same value
         return "call:" + fb.last2(fb.callee(e) or e.get("name"))
     if k == "call":
         return "call:" + fb.last2(fb.callee(e) or "?")
@@ -109,6 +116,17 @@ def _is_diverging_block(b):
     if k in ("call", "mcall") and b.get("ty") == "!":
         return True
     return False
+
+
+def _last_expr(b):
+    while b is not None and b.get("k") == "block":
+        seq = list(b.get("stmts", []))
+        if b.get("e") is not None:
+            seq.append(b["e"])
+        if not seq:
+            return b
+        b = seq[-1]
+    return b
 
 
 def _conjuncts(c):
@@ -390,6 +408,7 @@ def sites_of(facts, fn):
     out = []
     if fn.body is None:
         return out
+    expect_closures = set()
     # ---- HIR sites
     for node, parents in fb.walk_with_parents(fn.body):
         k = node.get("k")
@@ -406,6 +425,12 @@ def sites_of(facts, fn):
                 auto = guarded_by_presence_test(node, list(parents))
                 out.append((node["s"][0], Site(fn.def_, UNWRAPS[c], _origin(node["recv"]), "%s:%s" % (fn.file, node.get("ln")),
                                                fb.show(node)[:200], auto)))
+            elif c in _UNWRAP_OR_ELSE and node.get("args") and node["args"][0].get("k") == "closure" and \
+                    any(_macro_panic_kind(y.get("m")) for y in fb.walk(node["args"][0]["body"])) and _is_diverging_block(_last_expr(node["args"][0]["body"])):
+                # `.unwrap_or_else(|| panic!(msg))` is `.expect(msg)` spelled out: one site, keyed like the expect
+                expect_closures.add(fb.norm(node["args"][0].get("def") or ""))
+                auto = guarded_by_presence_test(node, list(parents))
+                out.append((node["s"][0], Site(fn.def_, "expect", _origin(node["recv"]), "%s:%s" % (fn.file, node.get("ln")), fb.show(node)[:200], auto)))
             elif c in PANICKING_STD:
                 auto = None
                 if fb.last_seg(c) in ("windows", "chunks", "step_by") and _lit_int(node["args"][0] if node.get("args") else None, 1) is not None:
@@ -431,6 +456,8 @@ def sites_of(facts, fn):
             if t["k"] == "call":
                 f = fb.norm(t.get("f") or "")
                 if f.startswith(PANIC_FNS_PREFIX):
+                    if b.def_ in expect_closures:
+                        continue      # accounted for as the `expect` site above
                     mk = _macro_panic_kind(t.get("m")) or "panic"
                     out.append((t["s"][0], Site(fn.def_, "explicit-" + mk, fb.last2(f), "%s:%s" % (fn.file, t.get("ln")),
                                                 "%s! (%s)" % (mk, f), None, b.def_)))
